@@ -39,6 +39,11 @@ pub fn train(spec: &TrainSpec, with_user: bool) -> Result<Model, String> {
         let mut model = trainer.train(corpus).map_err(|e| format!("train: {e}"))?;
         if with_user {
             if let Some(u) = spec.user_csv() {
+                if spec.reload_before_user {
+                    let mut buf = vec![];
+                    model.write_model(&mut buf).map_err(|e| format!("write_model: {e}"))?;
+                    model = Model::read_model(&buf[..]).map_err(|e| format!("read_model: {e}"))?;
+                }
                 if spec.export_before_user {
                     // an export before the user lexicon is read must not influence later exports
                     let (mut a, mut b, mut c, mut d) = (vec![], vec![], vec![], vec![]);
